@@ -81,8 +81,9 @@ CHECKS["C15"] = {
     "level_text": "Generated-input search with an exact oracle: answered locally (200, OK, backend log unchanged) iff probe support is on and the first User-Agent value begins with kube-probe/; otherwise forwarded exactly once and the backend's answer reaches the client; never both, never neither.",
     "level_note": _E2E_NOTE,
     "assumptions": ["requests whose two User-Agent lines disagree are judged only by the exclusive-or clause", "leading/trailing blanks are not part of a header value (RFC 9110)"],
-    "units": [{"name": "c15", "pkg": "c15", "run": "^Test", "shards": 8}],
-    "expect_checks": ["c15.probe"],
+    "units": [{"name": "c15", "pkg": "c15", "run": "^Test", "shards": 8},
+              {"name": "c15w", "pkg": ".", "overlay": "root", "run": "^TestVerifWiringC15$", "shards": 2}],
+    "expect_checks": ["c15.probe", "c15.wiring"],
 }
 
 CHECKS["C03"] = {
@@ -92,6 +93,30 @@ CHECKS["C03"] = {
     "level_text": "Generated-input search with an exact reference oracle (harness/ref/h2fp, written from the statement): with a quiescence barrier before each release the admissible history prefix is a single one, so the comparison is equality.",
     "level_note": _E2E_NOTE + " WINDOW_UPDATE increments below 10 are not generated because the statement does not pin the zero padding of WU.",
     "assumptions": ["scripts are legal by construction; a script the server rejects is discarded and counted (0 in practice)"],
-    "units": [{"name": "c03", "pkg": "c03", "run": "^Test", "shards": 8}],
-    "expect_checks": ["c03.e2e", "c03.marshal"],
+    "units": [{"name": "c03", "pkg": "c03", "run": "^Test", "shards": 8},
+              {"name": "c03w", "pkg": ".", "overlay": "root", "run": "^TestVerifWiringC03$", "shards": 2}],
+    "expect_checks": ["c03.e2e", "c03.marshal", "c03.wiring"],
+}
+
+CHECKS["C16"] = {
+    "level": "exploration",
+    "technique": "property-based testing (rapid, barrier mode under testing/synctest): generated multisets of 1..14 connections with every outcome (h2 / http/1.1 / no-ALPN served, plain HTTP on the TLS port, garbage, silent until handshake timeout, client abort or stall at a drawn byte offset of a valid session) started and finished in a drawn interleaving; requests_total gathered after every step at quiescence and compared with a model",
+    "rule": "case = connection plans + step order (start i / finish i / sleep past the handshake timeout). Non-trivial = at least three distinct outcomes including one failed (ok=0) connection and one client abort; distinct by hash of the script.",
+    "level_text": "Generated histories with an exact model: after every step the metric equals, per label set, the number of connections the proxy has ended so far (labels as the client observed them), never decreases, and at the end sums to the number of accepted connections.",
+    "level_note": _E2E_NOTE + " 'Ended' is taken as 'the proxy closed its side of the connection' (see DESIGN §6); whether it closes in the right situations is C11's subject.",
+    "assumptions": ["barrier mode: interleavings of whole steps, not of instructions"],
+    "units": [{"name": "c16", "pkg": "c16", "run": "^Test", "shards": 8}],
+    "expect_checks": ["c16.metric"],
+}
+
+CHECKS["C11"] = {
+    "level": "fault_enumeration",
+    "technique": "fault injection by generated abort/stall points (rapid under testing/synctest fake time): client closes or goes silent after a drawn byte offset of an h2 / http/1.1 / no-ALPN session, garbage / plain-HTTP / silent clients, idle waits after served requests, for drawn handshake and idle timeouts, sequential and parallel; oracles: Close() on the accepted conn, goroutine census of the bubble after teardown, exact fake-time deadlines; plus the same through the CLI flags (overlay test in package fingerproxy)",
+    "rule": "case = timeouts x 1..6 connections each with a mode (abort at offset, stall at offset, idle after requests, normal close, garbage/plain-http/silent). Non-trivial = an abort or stall strictly inside the session, or an idle wait; distinct by hash of the script.",
+    "level_text": "Generated fault points rather than a complete enumeration in the quick tier (offsets 0..2600 drawn uniformly, ~1200 scenarios); the thorough tier enumerates every byte offset of the three reference sessions. Every wait is in fake time, so 'eventually' clauses are decided at quiescence.",
+    "level_note": _E2E_NOTE + " net.Pipe connections: OS-level descriptors are not involved.",
+    "assumptions": ["a goroutine that still exists in the bubble after all clients left, the server was cancelled and the backend closed is a leak"],
+    "units": [{"name": "c11", "pkg": "c11", "run": "^Test", "shards": 8},
+              {"name": "c11w", "pkg": ".", "overlay": "root", "run": "^TestVerifWiringC11$", "shards": 2}],
+    "expect_checks": ["c11.release", "c11.pause-cancel", "c11.wiring"],
 }
